@@ -17,6 +17,10 @@ pub mod c08;
 pub mod c09;
 pub mod c10;
 pub mod c11;
+pub mod c12;
+pub mod c13;
+pub mod c14;
+pub mod c15;
 
 pub const SERVER_IP: IpAddr = IpAddr::V4(Ipv4Addr::new(192, 0, 2, 10));
 
@@ -32,6 +36,10 @@ pub fn all() -> Vec<Box<dyn Prop>> { vec![
         Box::new(c09::C09),
         Box::new(c10::C10),
         Box::new(c11::C11),
+        Box::new(c12::C12),
+        Box::new(c13::C13),
+        Box::new(c14::C14),
+        Box::new(c15::C15),
     ] }
 
 pub fn find(id: &str) -> Option<Box<dyn Prop>> { all().into_iter().find(|p| p.id() == id) }
